@@ -251,6 +251,33 @@ func (o *Once) Do(f func()) {
 	}
 }
 
+// OnceFunc, OnceValue and OnceValues mirror the sync helpers of the same name
+// on top of the simulated Once (a panic of f is not re-raised on later calls
+// as the originals do; f simply does not run again).
+func OnceFunc(f func()) func() {
+	var o Once
+	return func() { o.Do(f) }
+}
+
+func OnceValue[T any](f func() T) func() T {
+	var o Once
+	var v T
+	return func() T {
+		o.Do(func() { v = f() })
+		return v
+	}
+}
+
+func OnceValues[T1, T2 any](f func() (T1, T2)) func() (T1, T2) {
+	var o Once
+	var v1 T1
+	var v2 T2
+	return func() (T1, T2) {
+		o.Do(func() { v1, v2 = f() })
+		return v1, v2
+	}
+}
+
 // Cond simulates sync.Cond.
 type Cond struct {
 	L  sync.Locker
